@@ -1499,7 +1499,7 @@ func c09WaitLock(c *Ctx, v *vocab, prop string) {
 	// goroutine roots per tomb: the functions handed to X.tomb.Go, keyed by the tomb field
 	rootsOf := map[*types.Var][]*FuncInfo{}
 	nroots := 0
-	for _, fi := range c.P.LibFuncs("client") {
+	for _, fi := range c.P.LibFuncsAll("client") {
 		if fi.Decl.Body == nil {
 			continue
 		}
